@@ -354,6 +354,10 @@ def run(ctx):
         coq_ok = vlib.standard_coq_obligations(ctx, "Props.C03", thms, vlib.STD_AXIOMS)
     else:
         ctx.oblige("Props/C03.v present", False, "property theorem file missing")
+    # the schema quantifier closed on the converter fragment (Props/C03F.v: every type the converter model
+    # builds for a fragment document satisfies rt_set; model tied to the real converter by K3)
+    import convert_check
+    convert_check.convert_obligations(ctx, "C03")
 
     # ---- direct evaluation of the property text on compiled code
     cand = [it for it in ex.items if it["valid"] is True and it["accepted"]]
